@@ -4,6 +4,7 @@ package strategy
 
 import (
 	"strconv"
+	"time"
 
 	corev1 "k8s.io/api/core/v1"
 	metav1 "k8s.io/apimachinery/pkg/apis/meta/v1"
@@ -18,12 +19,29 @@ import (
 func ZZ_C14_counters() {
 	n := zzNumNodes(3, 4)
 	cats := make([]int, n)
+	// the seven categories plus "up-to-date pod that is terminating but still Ready" (deleted by
+	// a user or a drain, inside its grace period)
+	const upToDateTerminating = zzNumCat
+	termIdx := -1
 	for i := range cats {
-		cats[i] = zzConcSmall(nondet.Int("cat"+strconv.Itoa(i), 0, zzNumCat-1), zzNumCat-1)
+		cats[i] = zzConcSmall(nondet.Int("cat"+strconv.Itoa(i), 0, zzNumCat), zzNumCat)
+		if cats[i] == upToDateTerminating {
+			termIdx = i
+		}
 	}
 	ds := zzDaemonset(map[string]string{})
 	rs := zzReplicaSet()
-	params, _ := zzParams(ds, rs, cats)
+	params, items := zzParams(ds, rs, cats)
+	for i, c := range cats {
+		if c == upToDateTerminating {
+			p := zzPod(i, zzHashNew, 2, true, nondet.Base().Add(-time.Minute))
+			t := metav1.NewTime(nondet.Base().Add(-5 * time.Second))
+			p.DeletionTimestamp = &t
+			g := int64(30)
+			p.DeletionGracePeriodSeconds = &g
+			params.PodByNodeName[items[i]] = p
+		}
+	}
 	role := nondet.String("role", "active", "canary", "unknown")
 
 	var st *datadoghqv1alpha1.ExtendedDaemonSetReplicaSetStatus
@@ -87,6 +105,7 @@ func ZZ_C14_counters() {
 	nondet.Observe("desired", st.Desired)
 	nondet.Observe("current", st.Current)
 	nondet.Observe("ready", st.Ready)
+	nondet.Reach("C14.counters.terminating-ready-pod", termIdx >= 0 && role == "active")
 	nondet.Reach("C14.counters.quiescent-layout", allGood && role == "active")
 	nondet.Reach("C14.counters.mixed", role == "canary" && upToDate >= 1 && upToDate < n)
 	_ = corev1.PodRunning
